@@ -42,7 +42,8 @@ Inductive tev :=
   | TFilter (ks : list key) | TKeypress (c : Z) | TMouse (b col row : Z) | TUnhandled (k : key)
   | TAlarm (id : Z) | TPipe (id data : Z) | TFile (id : Z) | TRender | TQuit
   | TGetInput | TTimeouts (sec : bool) | TPStart | TPStop
-  | TWait.                        (* the event loop is about to block: the next scripted round arrives *)
+  | TWait                         (* the event loop is about to block: the next scripted round arrives *)
+  | TPopKey (c : Z).              (* keypress of the pop-up widget (top of the PopUpTarget's Overlay) *)
 
 Record config := Config {
   c_hook : bool;                 (* the screen has hook_event_loop (raw_display) / has not (plain) *)
@@ -59,7 +60,10 @@ Record config := Config {
   w_has_mouse : bool;            (* hasattr(widget, "mouse_event") *)
   w_keys : list (Z * Z);         (* keypress(code) returns: 0 = None (handled), else a key code; default: the key *)
   w_mouse : list Z;              (* buttons for which mouse_event returns True *)
-  w_cursor : bool                (* the rendered canvas has a cursor *)
+  w_cursor : bool;               (* the rendered canvas has a cursor *)
+  c_launcher : bool;             (* the body is wrapped in a PopUpLauncher: key 111 ('o') opens its pop-up;
+                                    create_pop_up() returns the same (cached) widget every time *)
+  w_pop_keys : list Z            (* keys the pop-up widget handles; key 120 ('x') makes it close the pop-up *)
 }.
 
 (* the terminal (what the escape sequences, termios and signal calls act on) *)
@@ -93,8 +97,11 @@ Record st := St {
   wstate : Z;                    (* the widget's state: how many inputs it handled so far; an unchanged widget
                                     hands draw_screen the very same canvas object again (canvas cache) *)
   buf_ok : bool;                 (* Screen.screen_buf is not None *)
-  buf_canvas : option Z          (* Screen._screen_buf_canvas: the canvas painted last (its widget state);
+  buf_canvas : option Z;         (* Screen._screen_buf_canvas: the canvas painted last (its widget state);
                                     None: nothing yet, or a canvas object that is never handed out again *)
+  l_pop : bool;                  (* PopUpLauncher._pop_up_widget is not None (the pop-up is open) *)
+  t_pop : bool;                  (* PopUpTarget._pop_up is the pop-up widget (None otherwise) *)
+  t_overlay : bool               (* PopUpTarget._current_widget is the Overlay (else the original widget) *)
 }.
 
 Inductive res (A : Type) := ROk (a : A) | RErr (e : exn).
@@ -118,27 +125,33 @@ Definition suppress_exit (m : M unit) : M unit :=
 
 (* state updates *)
 Definition emit (t : tev) : M unit :=
-  fun s => (ROk tt, St (n s) (t :: tr s) (scr s) (tm s) (size_known s) (connected s) (idle_reg s) (hooked s) (alarms s) (wstate s) (buf_ok s) (buf_canvas s)).
+  fun s => (ROk tt, St (n s) (t :: tr s) (scr s) (tm s) (size_known s) (connected s) (idle_reg s) (hooked s) (alarms s) (wstate s) (buf_ok s) (buf_canvas s) (l_pop s) (t_pop s) (t_overlay s)).
 Definition upd_scr (f : screen -> screen) : M unit :=
-  fun s => (ROk tt, St (n s) (tr s) (f (scr s)) (tm s) (size_known s) (connected s) (idle_reg s) (hooked s) (alarms s) (wstate s) (buf_ok s) (buf_canvas s)).
+  fun s => (ROk tt, St (n s) (tr s) (f (scr s)) (tm s) (size_known s) (connected s) (idle_reg s) (hooked s) (alarms s) (wstate s) (buf_ok s) (buf_canvas s) (l_pop s) (t_pop s) (t_overlay s)).
 Definition upd_tm (f : term -> term) : M unit :=
-  fun s => (ROk tt, St (n s) (tr s) (scr s) (f (tm s)) (size_known s) (connected s) (idle_reg s) (hooked s) (alarms s) (wstate s) (buf_ok s) (buf_canvas s)).
+  fun s => (ROk tt, St (n s) (tr s) (scr s) (f (tm s)) (size_known s) (connected s) (idle_reg s) (hooked s) (alarms s) (wstate s) (buf_ok s) (buf_canvas s) (l_pop s) (t_pop s) (t_overlay s)).
 Definition set_size_known (b : bool) : M unit :=
-  fun s => (ROk tt, St (n s) (tr s) (scr s) (tm s) b (connected s) (idle_reg s) (hooked s) (alarms s) (wstate s) (buf_ok s) (buf_canvas s)).
+  fun s => (ROk tt, St (n s) (tr s) (scr s) (tm s) b (connected s) (idle_reg s) (hooked s) (alarms s) (wstate s) (buf_ok s) (buf_canvas s) (l_pop s) (t_pop s) (t_overlay s)).
 Definition set_connected (b : bool) : M unit :=
-  fun s => (ROk tt, St (n s) (tr s) (scr s) (tm s) (size_known s) b (idle_reg s) (hooked s) (alarms s) (wstate s) (buf_ok s) (buf_canvas s)).
+  fun s => (ROk tt, St (n s) (tr s) (scr s) (tm s) (size_known s) b (idle_reg s) (hooked s) (alarms s) (wstate s) (buf_ok s) (buf_canvas s) (l_pop s) (t_pop s) (t_overlay s)).
 Definition set_idle_reg (b : bool) : M unit :=
-  fun s => (ROk tt, St (n s) (tr s) (scr s) (tm s) (size_known s) (connected s) b (hooked s) (alarms s) (wstate s) (buf_ok s) (buf_canvas s)).
+  fun s => (ROk tt, St (n s) (tr s) (scr s) (tm s) (size_known s) (connected s) b (hooked s) (alarms s) (wstate s) (buf_ok s) (buf_canvas s) (l_pop s) (t_pop s) (t_overlay s)).
 Definition set_hooked (b : bool) : M unit :=
-  fun s => (ROk tt, St (n s) (tr s) (scr s) (tm s) (size_known s) (connected s) (idle_reg s) b (alarms s) (wstate s) (buf_ok s) (buf_canvas s)).
+  fun s => (ROk tt, St (n s) (tr s) (scr s) (tm s) (size_known s) (connected s) (idle_reg s) b (alarms s) (wstate s) (buf_ok s) (buf_canvas s) (l_pop s) (t_pop s) (t_overlay s)).
 Definition set_alarms (l : list alarm) : M unit :=
-  fun s => (ROk tt, St (n s) (tr s) (scr s) (tm s) (size_known s) (connected s) (idle_reg s) (hooked s) l (wstate s) (buf_ok s) (buf_canvas s)).
+  fun s => (ROk tt, St (n s) (tr s) (scr s) (tm s) (size_known s) (connected s) (idle_reg s) (hooked s) l (wstate s) (buf_ok s) (buf_canvas s) (l_pop s) (t_pop s) (t_overlay s)).
 Definition set_wstate (v : Z) : M unit :=
-  fun s => (ROk tt, St (n s) (tr s) (scr s) (tm s) (size_known s) (connected s) (idle_reg s) (hooked s) (alarms s) v (buf_ok s) (buf_canvas s)).
+  fun s => (ROk tt, St (n s) (tr s) (scr s) (tm s) (size_known s) (connected s) (idle_reg s) (hooked s) (alarms s) v (buf_ok s) (buf_canvas s) (l_pop s) (t_pop s) (t_overlay s)).
 Definition set_buf_ok (b : bool) : M unit :=
-  fun s => (ROk tt, St (n s) (tr s) (scr s) (tm s) (size_known s) (connected s) (idle_reg s) (hooked s) (alarms s) (wstate s) b (buf_canvas s)).
+  fun s => (ROk tt, St (n s) (tr s) (scr s) (tm s) (size_known s) (connected s) (idle_reg s) (hooked s) (alarms s) (wstate s) b (buf_canvas s) (l_pop s) (t_pop s) (t_overlay s)).
 Definition set_buf_canvas (o : option Z) : M unit :=
-  fun s => (ROk tt, St (n s) (tr s) (scr s) (tm s) (size_known s) (connected s) (idle_reg s) (hooked s) (alarms s) (wstate s) (buf_ok s) o).
+  fun s => (ROk tt, St (n s) (tr s) (scr s) (tm s) (size_known s) (connected s) (idle_reg s) (hooked s) (alarms s) (wstate s) (buf_ok s) o (l_pop s) (t_pop s) (t_overlay s)).
+Definition set_l_pop (b : bool) : M unit :=
+  fun s => (ROk tt, St (n s) (tr s) (scr s) (tm s) (size_known s) (connected s) (idle_reg s) (hooked s) (alarms s) (wstate s) (buf_ok s) (buf_canvas s) b (t_pop s) (t_overlay s)).
+Definition set_t_pop (b : bool) : M unit :=
+  fun s => (ROk tt, St (n s) (tr s) (scr s) (tm s) (size_known s) (connected s) (idle_reg s) (hooked s) (alarms s) (wstate s) (buf_ok s) (buf_canvas s) (l_pop s) b (t_overlay s)).
+Definition set_t_overlay (b : bool) : M unit :=
+  fun s => (ROk tt, St (n s) (tr s) (scr s) (tm s) (size_known s) (connected s) (idle_reg s) (hooked s) (alarms s) (wstate s) (buf_ok s) (buf_canvas s) (l_pop s) (t_pop s) b).
 Definition get {A} (f : st -> A) : M A := fun s => (ROk (f s), s).
 
 Definition set_started b (x : screen) := Screen b (s_mouse_enabled x) (s_altbuf x) (s_old_tios x) (s_prev_winch x) (s_prev_tstp x) (s_prev_cont x).
@@ -194,7 +207,7 @@ Variable p : list (Z * fault).
 (* one invocation of a user callback: trace it, take the next index, fault if planned *)
 Definition cb (t : tev) : M unit :=
   fun s =>
-    let s' := St (n s + 1) (t :: tr s) (scr s) (tm s) (size_known s) (connected s) (idle_reg s) (hooked s) (alarms s) (wstate s) (buf_ok s) (buf_canvas s) in
+    let s' := St (n s + 1) (t :: tr s) (scr s) (tm s) (size_known s) (connected s) (idle_reg s) (hooked s) (alarms s) (wstate s) (buf_ok s) (buf_canvas s) (l_pop s) (t_pop s) (t_overlay s) in
     match plan_at p (n s) with
     | None => (ROk tt, s')
     | Some f => (RErr (exn_of f), s')
@@ -321,15 +334,37 @@ Definition screen_draw_screen : M unit :=
   else ret tt.
 
 (* ---------------- the topmost widget ---------------- *)
-(* PopUpTarget._update_overlay renders the wrapped widget first *)
-Definition update_overlay : M unit := if c_pop_ups c then cb TRender else ret tt.
+(* PopUpTarget._update_overlay (runs before keypress / mouse_event / render are forwarded) *)
+Definition update_overlay : M unit :=
+  if c_pop_ups c then
+    cb TRender ;;;                       (* canv = self._original_widget.render(size, focus=focus) *)
+    lp <- get l_pop ;;
+    if lp then                           (* if pop_up := canv.get_pop_up(): the launcher's canvas carries it *)
+      tp <- get t_pop ;;
+      if tp then                         (* not (self._pop_up != w): the cached widget object again *)
+        ov <- get t_overlay ;;           (* self._current_widget.set_overlay_parameters(...) *)
+        if ov then ret tt else raise (PyErr 1)     (* AttributeError when _current_widget is not the Overlay *)
+      else set_t_pop true ;;; set_t_overlay true   (* self._pop_up = w; self._current_widget = Overlay(...) *)
+    else set_t_pop false ;;; set_t_overlay false   (* self._pop_up = None; self._current_widget = original *)
+  else ret tt.
 
 (* _topmost_widget.keypress(size, key): returns the code of the returned key, 0 for None *)
 Definition widget_changed : M unit := ws <- get wstate ;; set_wstate (ws + 1).
 Definition topmost_keypress (k : Z) : M Z :=
-  update_overlay ;;; cb (TKeypress k) ;;;
-  (if assoc_default (w_keys c) k k =? 0 then widget_changed else ret tt) ;;;
-  ret (assoc_default (w_keys c) k k).
+  update_overlay ;;;
+  ov <- get t_overlay ;;
+  if ov then
+    (* Overlay.keypress -> top_w: the pop-up widget *)
+    cb (TPopKey k) ;;;
+    if k =? 120 then set_l_pop false ;;; ret 0           (* launcher.close_pop_up(); return None *)
+    else ret (if memz k (w_pop_keys c) then 0 else k)
+  else if c_launcher c && (k =? 111) then
+    (* PopUpLauncher subclass: keypress 'o': self.open_pop_up(); return None *)
+    cb (TKeypress k) ;;; set_l_pop true ;;; ret 0
+  else
+    cb (TKeypress k) ;;;
+    (if assoc_default (w_keys c) k k =? 0 then widget_changed else ret tt) ;;;
+    ret (assoc_default (w_keys c) k k).
 
 Definition widget_mouse_event (b col row : Z) : M bool :=
   cb (TMouse b col row) ;;;
@@ -340,14 +375,20 @@ Definition widget_mouse_event (b col row : Z) : M bool :=
 Definition topmost_mouse_event (b col row : Z) : M bool :=
   if c_pop_ups c then
     update_overlay ;;;
-    if w_has_mouse c then widget_mouse_event b col row
+    ov <- get t_overlay ;;
+    if ov then ret false                 (* Overlay.mouse_event: only top_w is asked; the pop-up widget has
+                                            Widget.mouse_event, which returns False *)
+    else if w_has_mouse c then widget_mouse_event b col row
     else raise (PyErr 1)                 (* PopUpTarget forwards to a widget without mouse_event *)
   else if w_has_mouse c then widget_mouse_event b col row
   else ret false.
 
 (* _topmost_widget.render(screen_size, focus=True) *)
 Definition topmost_render : M unit :=
-  update_overlay ;;; cb TRender.
+  update_overlay ;;;
+  ov <- get t_overlay ;;
+  if ov then cb TRender ;;; cb TRender   (* Overlay.render: bottom_w (launcher -> body), then top_w (the pop-up) *)
+  else cb TRender.
 
 (* ---------------- MainLoop ---------------- *)
 (* MainLoop.input_filter *)
@@ -540,12 +581,12 @@ End WithConfig.
 Definition normal_term (tios : Z) (w t cn : Z) : term :=
   Term false true false false false false false (tios, false) w t cn false.
 Definition fresh_screen : screen := Screen false false false None None None None.
-Definition init_st (t : term) : st := St 0 [] fresh_screen t false false false false [] 0 false None.
+Definition init_st (t : term) : st := St 0 [] fresh_screen t false false false false [] 0 false None false false false.
 
 (* ---------- wire format ----------
    case  = hook, filter [0 | 1 n codes..], unhandled [0 _ | 1 r], handle_mouse, pop_ups, paste, focus, isatty,
            prestarted, pre_alarms [list], selectable, has_mouse, keys [n then n pairs k v], mouse [list], cursor,
-           sig [w t c], plan [n then n pairs idx f]  with f = 0 for Exit, e > 0 for UserExc e,
+           sig [w t c], launcher, pop_keys [list], plan [n then n pairs idx f]  with f = 0 for Exit, e > 0 for UserExc e,
            body when hook=1: nrounds then per round: nevents then events;
                  event = 1 nkeys key4.. | 2 | 3 id | 4 id data | 5 id
            body when hook=0: ninputs then per input: nkeys key4..
@@ -597,7 +638,7 @@ Definition enc_tev (t : tev) : list Z :=
   | TFilter ks => 10 :: zlen ks :: flat_map enc_key ks
   | TKeypress x => [11; x] | TMouse b cl rw => [12; b; cl; rw] | TUnhandled k => 13 :: enc_key k
   | TAlarm i => [14; i] | TPipe i d => [15; i; d] | TFile i => [16; i] | TRender => [17] | TQuit => [18]
-  | TGetInput => [19] | TTimeouts b => [20; enc_bool b] | TPStart => [21] | TPStop => [22] | TWait => [23]
+  | TGetInput => [19] | TTimeouts b => [20; enc_bool b] | TPStart => [21] | TPStop => [22] | TWait => [23] | TPopKey x => [24; x]
   end.
 Definition enc_item (t : tev) : list Z := let e := enc_tev t in zlen e :: e.
 
@@ -627,10 +668,12 @@ Definition dec_case (l : list Z) : option (config * term * list (Z * fault) * li
       | hm :: pu :: pa :: fo :: ia :: ps :: l =>
         match dec_list l with Some (pre, sel :: hasm :: l) =>
         match dec_counted dec_pair l with Some (wk, l) =>
-        match dec_list l with Some (wm, cur :: sw :: st_ :: sc :: l) =>
+        match dec_list l with Some (wm, cur :: sw :: st_ :: sc :: lau :: l) =>
+        match dec_list l with Some (pk, l) =>
         match dec_counted dec_fault l with Some (pl, l) =>
           let cfg := Config hook filt unh (negb (hm =? 0)) (negb (pu =? 0)) (negb (pa =? 0)) (negb (fo =? 0))
-                            (negb (ia =? 0)) (negb (ps =? 0)) pre (negb (sel =? 0)) (negb (hasm =? 0)) wk wm (negb (cur =? 0)) in
+                            (negb (ia =? 0)) (negb (ps =? 0)) pre (negb (sel =? 0)) (negb (hasm =? 0)) wk wm (negb (cur =? 0))
+                            (negb (lau =? 0)) pk in
           let t0 := normal_term 0 sw st_ sc in
           if hook then
             match dec_counted (dec_counted dec_event) l with
@@ -642,6 +685,7 @@ Definition dec_case (l : list Z) : option (config * term * list (Z * fault) * li
             | Some (inputs, _) => Some (cfg, t0, pl, [], inputs)
             | None => None
             end
+        | None => None end
         | None => None end
         | _ => None end
         | None => None end
